@@ -22,6 +22,12 @@ def _lookup_post(result, args, kwargs, old):
     ctx = _state.get('ctx')
     if ctx is not None:
         ctx.count('contract_evals:get_leaf_for_position')
+    rec = _state.get('recording')
+    if rec is not None and len(rec) < 50:
+        # a lookup the library itself makes (the incremental parser does): remembered, and asked again afterwards
+        pos = args[1] if len(args) > 1 else kwargs.get('position')
+        inc = args[2] if len(args) > 2 else kwargs.get('include_prefixes', False)
+        rec.append((args[0], tuple(pos), bool(inc)))
 
 
 def _install(ctx):
@@ -51,28 +57,93 @@ def _judge(ctx, v, code, rng):
     ctx.count('positions_looked_up', info['positions'])
     ctx.count('zero_width_leaves', info['zero_width'])
     ctx.count('node_leaf_navigations', info.get('node_leaf_navigations', 0))
+    ctx.count('random_order_queries', info.get('random_order_queries', 0))
     if info['zero_width'] or info['repeated_siblings']:
         ctx.nontriv(v + '\0' + code)
     if info['zero_width'] and len(code) < 80:
         ctx.sample({'version': v, 'code': code, 'positions': info['positions']})
 
 
+def _judge_history(ctx, v, hist, rng, hid):
+    """trees that went through incremental updates: the lookups the diff parser made on the module while updating it are
+    asked again first (most recent first), then the whole walk"""
+    import parso
+    from parso.cache import parser_cache
+    from ..oracles.common import leaves
+    g = parso.load_grammar(version=v)
+    path = '/virt/c11/%s.py' % hid
+    try:
+        for i, text in enumerate(hist):
+            w = {'version': v, 'history': hist[:i + 1]}
+            _state['recording'] = []
+            try:
+                m = g.parse(text, diff_cache=True, path=path)
+            except RecursionError:
+                return
+            except Exception:
+                ctx.count('parse_raised_not_judged_here')
+                return
+            finally:
+                rec, _state['recording'] = _state['recording'], None
+            if not i:
+                continue
+            ctx.count('evaluations')
+            ctx.count('incremental_trees')
+            L = leaves(m)
+            for node, pos, inc in reversed([r for r in rec if r[0] is m]):
+                if not ((1, 0) <= pos <= tuple(m.end_pos)):
+                    continue
+                ctx.count('internal_lookups_asked_again')
+                try:
+                    got = m.get_leaf_for_position(pos, include_prefixes=inc)
+                except Exception as e:
+                    ctx.violation('lookup_raise', 'after an incremental update get_leaf_for_position(%s, %s) raised %r' % (pos, inc, e), w)
+                    return
+                exp = treechecks.expected_leaf(L, pos, inc)
+                if got is not exp:
+                    ctx.violation('lookup_after_update', 'after an incremental update get_leaf_for_position(%s, include_prefixes=%s) -> %r, expected %r '
+                                  '(a lookup the diff parser itself made during the update)' % (pos, inc, got, exp), w)
+                    return
+            viol, info = treechecks.check_navigation(m, text, rng, all_positions=len(text) < 300, max_positions=150)
+            for kind, msg in viol:
+                ctx.violation(kind, 'incremental tree, step %d: %s' % (i, msg), w)
+            if viol:
+                return
+            ctx.count('positions_looked_up', info['positions'])
+            ctx.count('random_order_queries', info.get('random_order_queries', 0))
+    finally:
+        parser_cache.pop(g._hashed, None)
+
+
 def run_shard(spec, ctx):
     _install(ctx)
     rng = random.Random(spec['seed'] + 7)
+    if spec['kind'] == 'incremental':
+        from . import c04
+        files = G.corpus_files()
+        for i in range(spec['n']):
+            if ctx.out_of_time():
+                ctx.count('stopped_by_time_budget')
+                break
+            _judge_history(ctx, harness.VERSIONS[i % 9], c04.make_history(rng, files), rng, str(i))
+        return
     for v, code, origin in _text.cases(spec, ctx):
         _judge(ctx, v, code, rng)
 
 
 def replay(w, ctx):
     _install(ctx)
+    if 'history' in w:
+        return _judge_history(ctx, w['version'], w['history'], random.Random(0), 'replay')
     _judge(ctx, w['version'], w['code'], random.Random(0))
 
 
 def shards(tier, seed):
-    return _text.shards(tier, seed, 16000, 400000)
+    q = tier == 'quick'
+    return _text.shards(tier, seed, 16000, 400000) + [{'kind': 'incremental', 'n': 250 if q else 20000, 'budget_s': 60 if q else 900} for _ in range(4)]
 
 
 def floors(tier):
     return {'evaluations': 2000, 'positions_looked_up': 100000, 'zero_width_leaves': 200,
-            'contract_evals:get_leaf_for_position': 100000, 'node_leaf_navigations': 100000}
+            'contract_evals:get_leaf_for_position': 100000, 'node_leaf_navigations': 100000, 'random_order_queries': 500000,
+            'incremental_trees': 1000, 'internal_lookups_asked_again': 500}
